@@ -653,7 +653,7 @@ impl Check for C03 {
     fn cases(&self, tier: Tier) -> u64 {
         match tier {
             Tier::Quick => 24_000,
-            Tier::Thorough => 2_000_000,
+            Tier::Thorough => 1_200_000,
         }
     }
     fn worker_profile(&self, k: usize) -> &'static str {
@@ -1017,7 +1017,7 @@ impl Check for C04 {
     fn cases(&self, tier: Tier) -> u64 {
         match tier {
             Tier::Quick => 2_400,
-            Tier::Thorough => 24_000,
+            Tier::Thorough => 16_000,
         }
     }
     fn rule(&self) -> String {
